@@ -44,8 +44,15 @@ def run(ctx, rep):
         calls = b['calls']
         reads = [c for c in calls if is_whole_read(c)]
         partial = [c for c in calls if not is_whole_read(c) and (any(p in c['callee'] for p in PARTIAL_READ) or c['callee'].endswith('File::open'))]
-        oo_names = {c['callee'].split('::')[-1] for c in calls if 'OpenOptions' in c['callee']}
+        oo_names = oo_flags(calls)
         writes = [c for c in calls if is_write_event(c, oo_names)]
+        # a write performed inside a closure (`.and_then(|()| file.write_all(..))`) happens where the closure is handed over
+        for r in b['refs']:
+            if r.get('kind') == 'closure' and r.get('key') in prog.bodies:
+                for k2 in prog.region([r['key']]):
+                    for c2 in prog.bodies[k2]['calls']:
+                        if is_write_event(c2, oo_names):
+                            writes.append(dict(c2, bb=r['bb'], in_closure=True))
         eqs = [c for c in calls if c['callee'].endswith('PartialEq<std::vec::Vec<U, A2>>>::eq') or re.search(r'PartialEq.*::eq$|PartialEq.*::ne$', c['callee'])]
         eqs = [c for c in eqs if any('u8' in t for t in c.get('arg_tys', []))]
         # logic moved into local helpers: a helper that wraps the whole-file read counts as the read; a bool helper that
@@ -184,6 +191,21 @@ def read_ok_targets(body, r, prog=None):
     return [t for _, t in out] or None
 
 
+def oo_flags(calls):
+    """Names of the OpenOptions builder calls in effect: a boolean setter counts only when its argument is `true`
+    (`.truncate(false)` does not truncate); `new` / `open` are kept so that the chain can be printed."""
+    out = set()
+    for c in calls:
+        if 'OpenOptions' not in c['callee']:
+            continue
+        nm = c['callee'].split('::')[-1]
+        arg = (c.get('args') or [''])[-1]
+        if nm in ('read', 'write', 'append', 'truncate', 'create', 'create_new') and re.search(r'const false', arg):
+            continue
+        out.add(nm)
+    return out
+
+
 def is_write_event(c, oo_names):
     """A call that changes the content or the modification time of the output file: fs::write, File::create*, a truncating or
     creating OpenOptions::open, set_len, and io::Write methods on a File handle.  Configuring an OpenOptions value or opening
@@ -192,7 +214,8 @@ def is_write_event(c, oo_names):
     if re.search(r'std::fs::write$|fs::File::create$|File::create_new$|fs::remove_file$|fs::rename$|fs::copy$|File::set_len$|fs::hard_link$', cal):
         return True
     if cal.endswith('OpenOptions::open'):
-        return bool(oo_names & {'truncate', 'create', 'create_new', 'append'})
+        # opening an existing file changes it only when the chain truncates (create/append leave content and mtime alone)
+        return bool(oo_names & {'truncate'})
     if (c.get('declared') or '').startswith('std::io::Write::') and any('fs::File' in t for t in c.get('arg_tys', [])[:1]):
         return True
     return False
@@ -211,7 +234,7 @@ def truncating(prog, b, key, rep, name, site, writes):
     region = prog.region([key])
     calls = [x for k2 in region if prog.bodies[k2]['id'] not in GEN_WRITERS or k2 == key for x in prog.bodies[k2]['calls']]
     oo = [c for c in calls if 'OpenOptions' in c['callee']]
-    names = {c['callee'].split('::')[-1] for c in oo}
+    names = oo_flags(calls)
     for_write = names & {'write', 'append', 'create', 'create_new', 'truncate'}
     set_len0 = [c for c in calls if c['callee'].endswith('File::set_len') and c['args'][1:2] and re.match(r'const 0_u64', c['args'][1])]
     if oo and for_write:
